@@ -828,7 +828,8 @@ func isWriterType(t types.Type) bool {
 	if n, ok := t.(*types.Named); ok && n.Obj().Pkg() != nil && n.Obj().Pkg().Path() == "io" && n.Obj().Name() == "Writer" {
 		return true
 	}
-	return false
+	// an in-memory buffer handed on by pointer plays the same role
+	return isBufferPtr(t)
 }
 
 func pkgFuncName(f *ssa.Function) string {
